@@ -203,6 +203,35 @@ func init() {
 				fn := p.closureLabel(cs.Fn)
 				r.check(strings.HasPrefix(fn, "(*serverConn).handleStreams"), "detachTimedOut called from "+fn, p.ipos(cs.Instr.(ssa.Instruction)), "only where the stream loop takes a report", fn+" calls detachTimedOut, which replaces Stream.ctx, away from the places where a handler's report is taken")
 			}
+			// detachTimedOut itself: nothing to do without a context or without a timed-out response; otherwise a context nobody else has,
+			// initialised for this connection, given a copy of the response to send, and put in the place of the old one
+			if fd := p.decl("(*serverConn).detachTimedOut"); fd != nil {
+				t := stmtTexts(p, fd.Body.List)
+				at := func(w string) int {
+					for i, x := range t {
+						if x == w {
+							return i
+						}
+					}
+					return -1
+				}
+				g1, tr, g2, mk, in2, cp, st := at("ifstrm.ctx==nil{return}"), at("tr:=strm.ctx.LastTimeoutErrorResponse()"), at("iftr==nil{return}"), at("ctx:=&fasthttp.RequestCtx{}"), at("ctx.Init2(sc.c,sc.logger,false)"), at("tr.CopyTo(&ctx.Response)"), at("strm.ctx=ctx")
+				r.check(g1 >= 0 && tr > g1 && g2 > tr && mk > g2 && in2 > mk && cp > mk && st > cp && st > in2, "a timed-out context is replaced by a fresh one that carries the response to send", p.pos(fd.Pos()), "no ctx or no timeout response -> return; fresh RequestCtx; Init2; tr.CopyTo(&ctx.Response); strm.ctx = ctx", "detachTimedOut no longer swaps the context a timed-out handler still uses for a fresh one holding a copy of the timeout response: the loop goes on to read, close and pool the handler's context, or the peer gets an empty 200 instead of the timeout response")
+			} else {
+				r.bad("a timed-out context is replaced by a fresh one that carries the response to send", "?", "(*serverConn).detachTimedOut no longer resolves")
+			}
+			if fd := p.decl("(*serverConn).dropReported"); fd != nil {
+				okD := false
+				ast.Inspect(fd.Body, func(n ast.Node) bool {
+					cc, ok := n.(*ast.CommClause)
+					if ok && cc.Comm != nil && squash(p.text(cc.Comm)) == "strm:=<-sc.handlerDone" {
+						t := stmtTexts(p, cc.Body)
+						okD = len(t) == 1 && t[0] == "ifstrm.ctx!=nil{closeLeftBody(strm.ctx)}"
+					}
+					return true
+				})
+				r.check(okD, "what a late reporter finds in the channel has its body closed", p.pos(fd.Pos()), "case strm := <-sc.handlerDone: if strm.ctx != nil { closeLeftBody(strm.ctx) }", "dropReported no longer closes the body stream of each response it takes out of the dead channel")
+			}
 			// dropReported: every call sits in a select arm that received from handlerStop
 			for _, cs := range p.callsTo("(*serverConn).dropReported") {
 				fn := p.closureLabel(cs.Fn)
